@@ -263,6 +263,9 @@ func runC06(e *Env) error {
 	nsweeps := e.N(2, 4)
 	for s := 0; s < nsweeps; s++ {
 		for n := uint64(0); n <= maxN; n++ {
+			if s >= 2 && n > 600 {
+				break // the higher-round sweeps stop at 600
+			}
 			rounds := uint8(1 + (n+uint64(s))%3)
 			if s >= 2 {
 				rounds = uint8(4 + (n+uint64(s))%7)
